@@ -90,11 +90,35 @@ class Program:
         pkgbase = 'pexpect'
         body = list(tree.body)
         # imports nested in top-level if / try blocks (platform switches) count as module-level imports
+        def live_imports(node):
+            """imports under module-level if / try blocks; an `if sys.version_info ...` test is decided for this
+            interpreter (CPython 3), so only the live arm counts (listed as platform-pruned)"""
+            if isinstance(node, ast.If):
+                srctest = ast.unparse(node.test)
+                known = {'sys', 'py_version_info', 'version_info', 'PY3'}
+                names = {n.id for n in ast.walk(node.test) if isinstance(n, ast.Name)}
+                if names and names <= known and ('version_info' in srctest or 'PY3' in srctest):
+                    try:
+                        import sys
+                        live = bool(eval(srctest, {'sys': sys, 'PY3': True, 'py_version_info': sys.version_info,
+                                                   'version_info': sys.version_info}))
+                    except Exception:
+                        live = None
+                    if live is not None:
+                        self.pruned.append('%s:%d' % (os.path.basename(path), node.lineno))
+                        for sub in (node.body if live else node.orelse):
+                            yield from live_imports(sub)
+                        return
+                for sub in node.body + node.orelse:
+                    yield from live_imports(sub)
+            elif isinstance(node, ast.Try):
+                for sub in node.body + [x for h in node.handlers for x in h.body] + node.orelse + node.finalbody:
+                    yield from live_imports(sub)
+            elif isinstance(node, (ast.ImportFrom, ast.Import)):
+                yield node
         for node in tree.body:
             if isinstance(node, (ast.If, ast.Try)):
-                for sub in ast.walk(node):
-                    if isinstance(sub, (ast.ImportFrom, ast.Import)):
-                        body.append(sub)
+                body.extend(live_imports(node))
         for node in body:
             if isinstance(node, ast.ImportFrom):
                 if node.level >= 1:
